@@ -969,6 +969,10 @@ pub enum Associativity {
     /// `Both` means mathematically associative, like `+` or `*`
     Both,
     Right,
+    /// Not associative at all: an operand of the same strength is always parenthesized
+    /// (comparison operators: `a < b < c` is not `a < (b < c)`, and engines disagree on
+    /// whether `=` binds weaker than `<`)
+    None,
 }
 
 impl Associativity {
@@ -1043,6 +1047,7 @@ impl SQLExpression for BinaryOperator {
         use BinaryOperator::*;
         match self {
             Minus | Divide | Modulo => Associativity::Left,
+            Gt | Lt | GtEq | LtEq | Eq | NotEq => Associativity::None,
             _ => Associativity::Both,
         }
     }
